@@ -345,6 +345,13 @@ proof fn lemma_be_final_step(v: Seq<f64>, n: int, i: int, ents: Seq<BedEntry>, n
 //   returned AT ONCE" is expressible: the items behind it are still in the stream);
 //   `mut v: ArrayViewMut<'_, f64, numpy::Ix1>` -> `v: &mut VArr`;  `_BBIReadError` -> `ReadErr`;
 //   `for interval in iter {` -> `loop { let interval = match iter.next() { None => break, Some(x) => x };`
+//   `for interval in iter.flatten() {` (also `.filter_map(Result::ok)`, `.filter_map(|r| r.ok())`; 0 hits on /repo) -> the
+//   same `loop {` header followed by `let interval = match interval { Ok(x) => x, Err(_) => { continue; } };`: the REAL
+//   meaning of `Iterator::flatten` over `Result` items (`Result` iterates over its Ok value: an Err item yields
+//   nothing and the adaptor goes on with the next item).  The optional splice on that line states what the property
+//   needs there: the item just taken is not an Err that is about to be skipped
+//   (`../error_item_is_returned_at_once/not_skipped_by_flatten`).  Both header subs are min=0: the anchor that
+//   must survive is `let interval = match iter.next()` (the //@at below).
 //   `for val in v.iter_mut() {` -> index loop `let n__ = v.len(); for i__2 in 0..n__ { let val = v.index_mut(i__2);`
 //   `X as f64` (f32 -> f64 widening) -> `f64_of_f32(X)`;  `f64::NAN` -> `fconst_f64_nan()` (R12c)
 fn to_array(
